@@ -373,6 +373,11 @@ class Sched(object):
                     import filelock
 
                     acts.append(Action("%s:lock-timeout(%s)" % (n, path), p, "timeout", self._mk_exc(p, filelock.Timeout(path)), 3))
+                if self._lock_present(path) and self._marker_malformed(path):
+                    # the lock library (filelock >= 3.13 / 4) treats a marker it cannot parse as a leftover once it is
+                    # two seconds old and removes it; markers written by this layer are empty, anything else in the
+                    # file was put there by the code under test
+                    acts.append(Action("%s:lock-break-malformed(%s)" % (n, path), p, "timeout", self._mk_break_and_lock(p, path), 3))
             elif k == "unlock":
                 acts.append(Action("%s:unlock(%s)" % (n, op[1]), p, "unlock", self._mk_unlock(p, op[1]), 1))
             elif k == "flock":
@@ -561,6 +566,27 @@ class Sched(object):
                 os.makedirs(os.path.dirname(full), exist_ok=True)
                 fd = os.open(full, os.O_CREAT | os.O_EXCL | os.O_WRONLY)
                 os.close(fd)
+            self._resume(p)
+
+        return fn
+
+    def _marker_malformed(self, path):
+        if not self.root:
+            return False
+        try:
+            return os.path.getsize(os.path.join(self.root, path)) > 0
+        except OSError:
+            return False
+
+    def _mk_break_and_lock(self, p, path):
+        def fn():
+            try:
+                _REAL_UNLINK(os.path.join(self.root, path))
+            except OSError:
+                pass
+            self.locks.pop(path, None)  # the previous holder is not told
+            self.locks[path] = p.pid
+            open(os.path.join(self.root, path), "wb").close()
             self._resume(p)
 
         return fn
